@@ -10,8 +10,7 @@ from ..pyfront import unparse, norm_key, try_const
 from .. import excflow
 
 
-def ws(s):
-    return re.sub(r'\s+', ' ', s)
+from ..pyfront import ws  # noqa: E402,F401  (whitespace-collapsed, rename/normal-form tolerant `in`)
 
 
 def classify_while(f, w):
@@ -245,9 +244,14 @@ def recursion(ctx, L, cg, funcs, establishers):
                 pp = ctx.py.mod('prophyc.parsers.prophy')
                 td = ws(unparse(pp.func('Parser.p_typedef_def').node))
                 overwrites = inn('self.typedecls[t[3]] = node', td)
-                sc = ws(unparse(pp.func('Parser._is_type_sizer_compatible').node))
-                visited = re.search(r'elif typename in (seen|visited): return False', sc) is not None and \
-                    re.search(r'_is_type_sizer_compatible\(self\.typedecls\[typename\]\.type_name, (seen|visited) \+ \(typename,\)\)', sc) is not None
+                from . import shared_py as P
+                scf = pp.func('Parser._is_type_sizer_compatible')
+                SC = ['self', 'typename', 'seen']
+                rec = [c for c in scf.walk() if isinstance(c, ast.Call) and unparse(c.func).endswith('._is_type_sizer_compatible')]
+                # every recursive call extends the visited tuple by the name being left and is reached only for unvisited names
+                visited = bool(rec) and len(scf.params) == 3 and all(
+                    len(c.args) == 2 and P.sem_is(scf, c.args[1], 'seen + (typename,)', SC) and P.knows(scf, c, 'typename in seen', False, SC)
+                    for c in rec)
                 missing = ['prophy (a redefinition `typedef A A;` is only recorded as an error; parsing goes on and overwrites '
                            'typedecls[A] with a self-referential typedef)'] if overwrites and not visited else []
             L.check(not missing, 'F12.acyclicity', key, ids[comp[0]].site(),
